@@ -8,7 +8,8 @@ open Np Drv ApplyCal
   calc ( (name inp ( (c c ..) .. )) .. )  ( (l1 l2) .. )  ( name .. )  ( f .. )  ( (stream ( f .. )) .. )
        skip  ( tchunk .. )  ( fchunk .. )
     -> `ok ( names ) ( (kind e..) .. ) <mirror [t][f][b]> <spec [t][f][b]>` | `E:<Error>`
-       mirror = calcCorrection + assemble over the chunking; spec = specByLabel pointwise
+       mirror = calcCorrection (late-bound maps, as coded) + assemble over the chunking, or ( E:<Error> );
+       spec = specByLabel pointwise with every product's own map (calcCorrectionIntended)
   kern ( vis.. ) ( weights.. ) ( flags.. ) ( corr.. )
     -> `ok ( vis.. ) ( weights.. ) ( flags.. )`
   inputs ( (l1 l2) .. )     -> sorted input list and the two index lists
@@ -66,17 +67,21 @@ def doCalc (args : List SX) : Option String :=
     let sensors := lookupSensor st
     let r : Except Err String := do
       let P ← calcCorrection sensors cps names df (lookupFreqs cft) atol skip
-      let finals := P.prods.map (·.name)
-      if P.prods.isEmpty then
+      let Pi ← calcCorrectionIntended sensors cps names df (lookupFreqs cft) atol skip
+      let finals := Pi.prods.map (·.name)
+      if Pi.prods.isEmpty then
         pure s!"none {showList showStr finals}"
       else
-        let mirror ← assemble floatAlg P cf 0 ct
+        -- the mirror may raise (late-bound table too long for another product) where the spec is fine
+        let mirror := match assemble floatAlg P cf 0 ct with
+          | .ok m => showArr3 m
+          | .error e => "( " ++ showErr e ++ " )"
         let T := ct.sum
         let Fn := cf.sum
-        let pc := P.prods.map fun p => (p.name, p.cmap)
+        let pc := Pi.prods.map fun p => (p.name, p.cmap)
         let spec := (List.range T).map fun t => (List.range Fn).map fun f =>
           cps.map fun cp => specByLabel floatAlg sensors pc cp.1 cp.2 t f
-        pure s!"ok {showList showStr finals} {showList showCmap (P.prods.map (·.cmap))} {showArr3 mirror} {showArr3 spec}"
+        pure s!"ok {showList showStr finals} {showList showCmap (Pi.prods.map (·.cmap))} {mirror} {showArr3 spec}"
     pure (match r with | .ok s => s | .error e => showErr e)
   | _ => none
 
